@@ -386,6 +386,21 @@ def r14_3(ctx):
             grow += [(fi, n, why) for n, why in registry_value_growth(fi.node, a, c)]
         ctx.check(f"entries of {c}.{a} are replaced, never grown in place", not grow, "d[key] = freshly built value",
                   "; ".join(f"{fi.qual}:{n.lineno} {why}" for fi, n, why in grow[:3]) or "ok", fn_where(idx, grow[0][0]) if grow else "rzilcompiler/")
+    # two Python idioms that create hidden cross-call state: mutable default arguments and memoising decorators
+    mut_defaults, memo = [], []
+    for fi in idx.funcs.values():
+        if ".Tests" in fi.module or fi.module.endswith("Tests"):
+            continue
+        a = fi.node.args
+        for d in list(a.defaults) + [x for x in a.kw_defaults if x is not None]:
+            if is_mutable_literal(d) or (isinstance(d, ast.Call) and U(d.func) in ("dict", "list", "set", "defaultdict", "OrderedDict")):
+                mut_defaults.append(f"{fi.qual}:{fi.node.lineno} default {U(d)}")
+        for dec in fi.node.decorator_list:
+            t = U(dec.func) if isinstance(dec, ast.Call) else U(dec)
+            if t.split(".")[-1] in ("lru_cache", "cache", "cached_property"):
+                memo.append(f"{fi.qual}:{fi.node.lineno} @{t}")
+    ctx.check("no mutable default argument (one object shared by all calls)", not mut_defaults, "none", "; ".join(mut_defaults[:3]) or "none", "rzilcompiler/")
+    ctx.check("no memoising decorator (results of earlier calls handed out again)", not memo, "none", "; ".join(memo[:3]) or "none", "rzilcompiler/")
     # compile_insn must (re)compile, not return a cached result
     fi = idx.func("Compiler.compile_insn")
     rets = [p for p in paths_of(fi.node) if p.outcome == "return"]
